@@ -13,7 +13,7 @@
    byte, including rejects and .pc; idempotence and "fails again the same way" are run too. *)
 From Coq Require Import List ZArith NArith Bool String.
 Import ListNotations.
-From RQ Require Import Base Apply Parser Quilt QuiltProofs Lines Reload ViewSim.
+From RQ Require Import Base Apply Parser Quilt QuiltProofs Lines Reload ViewSim SaveReads LoadedState.
 Local Notation length := List.length (only parsing).
 
 Theorem C09_already_applied_changes_nothing :
@@ -113,8 +113,8 @@ Proof. vm_compute. auto. Qed.
    in similar states. *)
 Theorem C09_fresh_invocation_equals_continuation :
   forall K dm cfg db fs ov applied fs2 lo,
-    (forall fp, fpK K fp) -> wsim K dm fs ov fs2 [] -> (forall s, In s applied -> (st_index s < lo)%nat) ->
-    forall series index, (lo <= index)%nat ->
+    wsim K dm fs ov fs2 [] -> (forall s, In s applied -> (st_index s < lo)%nat) ->
+    forall series index, series_in K db series -> (lo <= index)%nat ->
     fst (apply_series cfg db {| a_applied := applied; a_files := ov |} index series fs) = fs /\
     fst (apply_series cfg db {| a_applied := []; a_files := [] |} index series fs2) = fs2 /\
     ressim (sersim K dm fs fs2 applied [])
@@ -126,9 +126,8 @@ Print Assumptions C09_fresh_invocation_equals_continuation.
 (* the general form: any two similar worlds, any stacks whose older parts lie below the patches pushed now *)
 Theorem C09_similar_worlds_same_push :
   forall K dm cfg db fs1 fs2 base1 base2 lo,
-    (forall fp, fpK K fp) ->
     (forall s, In s base1 -> (st_index s < lo)%nat) -> (forall s, In s base2 -> (st_index s < lo)%nat) ->
-    forall series st1 st2 index, (lo <= index)%nat -> extsim K dm fs1 fs2 base1 base2 st1 st2 ->
+    forall series st1 st2 index, series_in K db series -> (lo <= index)%nat -> extsim K dm fs1 fs2 base1 base2 st1 st2 ->
     fst (apply_series cfg db st1 index series fs1) = fs1 /\ fst (apply_series cfg db st2 index series fs2) = fs2 /\
     ressim (sersim K dm fs1 fs2 base1 base2) (snd (apply_series cfg db st1 index series fs1))
                                           (snd (apply_series cfg db st2 index series fs2)).
@@ -151,6 +150,72 @@ Theorem C09_cached_loads_are_invisible :
 Proof. exact wsim_cached. Qed.
 Print Assumptions C09_cached_loads_are_invisible.
 
-(* with all names looked at, the side condition on the file patches is void *)
-Example C09_all_names : forall fp, fpK allK fp.
-Proof. intros fp. split; intros; exact I. Qed.
+(* with all names looked at, the side condition on the series is void *)
+Example C09_all_names : forall db series, series_in allK db series.
+Proof. intros db series sp data p _ _ _. apply Forall_forall. intros fp _. split; intros; exact I. Qed.
+
+(* ---------- the last link: the tree the first invocation leaves reads as its overlay ---------- *)
+
+(* Saving an overlay (no fault) and removing the emptied directories leaves a tree in which every name of the
+   overlay reads as its overlay entry and every independent name reads as before - [indep]: neither path is a
+   proper prefix of the other (the class of the known finding dir-and-file is what this excludes); entries whose
+   lines are well-formed (no-newline-midfile excluded) and whose absent files have neither content nor mode. *)
+Theorem C09_saved_tree_reads_as_overlay :
+  forall K dm ov fs fs1 cl,
+    fs_fault fs = None -> save_all dm ov [] fs = (fs1, ROk cl) ->
+    keys_indep ov -> Forall (entry_start_ok fs) ov -> Forall (entry_ok dm) ov ->
+    (forall k, okkey K k -> ov_get k ov = None -> Forall (fun e => indep (normalize k) (kpath e)) ov) ->
+    wsim K dm fs ov (fst (clean_all cl fs1)) [].
+Proof. exact saved_tree_reads_as_overlay. Qed.
+Print Assumptions C09_saved_tree_reads_as_overlay.
+
+(* ... so the second invocation, started on that tree with nothing in memory, does what the first would have done
+   had it gone on: same final patch, same reject files, similar state *)
+Theorem C09_second_invocation_equals_continuation :
+  forall K dm cfg db fs st n fs1 cl,
+    fs_fault fs = None ->
+    save_all dm (a_files st) [] fs = (fs1, ROk cl) ->
+    keys_indep (a_files st) -> Forall (entry_start_ok fs) (a_files st) -> Forall (entry_ok dm) (a_files st) ->
+    (forall k, okkey K k -> ov_get k (a_files st) = None -> Forall (fun e => indep (normalize k) (kpath e)) (a_files st)) ->
+    (forall s, In s (a_applied st) -> (st_index s < n)%nat) ->
+    forall rest, series_in K db rest ->
+    let fs2 := fst (clean_all cl fs1) in
+    fst (apply_series cfg db st n rest fs) = fs /\
+    fst (apply_series cfg db {| a_applied := []; a_files := [] |} n rest fs2) = fs2 /\
+    ressim (sersim K dm fs fs2 (a_applied st) [])
+           (snd (apply_series cfg db st n rest fs))
+           (snd (apply_series cfg db {| a_applied := []; a_files := [] |} n rest fs2)).
+Proof. exact second_invocation_equals_continuation. Qed.
+Print Assumptions C09_second_invocation_equals_continuation.
+
+(* from scratch: the first invocation applies its patches to the starting tree and saves; what its overlay entries
+   say about the starting tree (premise entry_start_ok above) follows from how they were loaded *)
+Theorem C09_first_then_second :
+  forall K dm cfg db fs first st n rejs fs1 cl,
+    fs_fault fs = None -> no_file_dir fs ->
+    apply_series cfg db {| a_applied := []; a_files := [] |} 0 first fs = (fs, ROk (st, n, rejs)) ->
+    save_all dm (a_files st) [] fs = (fs1, ROk cl) ->
+    NoDup (List.map fst (a_files st)) -> Forall (fun e => kpath e <> []) (a_files st) ->
+    keys_indep (a_files st) -> Forall (entry_ok dm) (a_files st) ->
+    (forall k, okkey K k -> ov_get k (a_files st) = None -> Forall (fun e => indep (normalize k) (kpath e)) (a_files st)) ->
+    (forall s, In s (a_applied st) -> (st_index s < n)%nat) ->
+    forall rest, series_in K db rest ->
+    let fs2 := fst (clean_all cl fs1) in
+    fst (apply_series cfg db st n rest fs) = fs /\
+    fst (apply_series cfg db {| a_applied := []; a_files := [] |} n rest fs2) = fs2 /\
+    ressim (sersim K dm fs fs2 (a_applied st) [])
+           (snd (apply_series cfg db st n rest fs))
+           (snd (apply_series cfg db {| a_applied := []; a_files := [] |} n rest fs2)).
+Proof. exact first_then_second. Qed.
+Print Assumptions C09_first_then_second.
+
+(* the premises about the overlay are met by a concrete one: the file f of c09_fs with its second line changed *)
+Definition c09_ov : overlay :=
+  [(b "f", {| content := split_lines (b ("a" ++ nl ++ "B" ++ nl)%string); existed := true; deleted := false; perm := Some 33188%N |})].
+Example C09_link_premises :
+  keys_indep c09_ov /\ Forall (entry_start_ok c09_fs) c09_ov /\ Forall (entry_ok 420) c09_ov.
+Proof.
+  split; [split; [constructor|exact I]|]. split.
+  - constructor; [|constructor]. split; [reflexivity|]. split; [reflexivity|discriminate].
+  - constructor; [|constructor]. split; [apply split_lines_wf|discriminate].
+Qed.
